@@ -9,12 +9,12 @@ CLAIMED = {
  'C01': dict(
     text='Bounded symbolic verification of chi.LogLikelihood / LogPosterior over an uninterpreted mechanistic model: for every pair (triple) of per-output time multisets within the bound and all real observations and parameters z3 decides score = sum of documented densities at the matching (output, time), pointwise layout and sum, and evaluability.',
     design='5 C01',
-    note='Trusted: z3, object-dtype NumPy, reference densities, mechanistic stub (uninterpreted Y keyed by output and time). ODE solver outside. Bounds: 1-2 outputs exhaustively (<=2 (3) observations per output over 3 (4) distinct times), 3-4 outputs on fixed grids with every triple of error models of unequal parameter counts, outputs without measurements in every position.',
+    note='Trusted: z3, object-dtype NumPy, reference densities, mechanistic stub (uninterpreted Y keyed by output and time). ODE solver outside. Bounds: 1-2 outputs exhaustively (<=2 (3) observations per output over 3 (4) distinct times), 3-4 outputs on fixed grids with every triple of error models of unequal parameter counts, outputs without measurements in every position. Also: pointwise values right after a gradient evaluation.',
     technique='symbolic execution of the real code on z3 reals with an uninterpreted solution functional + SMT validity queries over exhaustively enumerated time-grid order types'),
  'C02': dict(
     text='Bounded symbolic verification of chi.HierarchicalLogLikelihood/-Posterior: for every composition of population sub-models within the bound and all real vectors/data/covariates, z3 decides that the value equals sum_i LL_i(psi_i) + population log-density as rebuilt by a specification interpreter that reads only the published names and IDs (pooled, heterogeneous, non-centred, covariate, fixed-parameter semantics from the documentation).',
     design='5 C02',
-    note='Trusted: z3, canonical linear abstraction (chisym/canon.py, sound first stage), object-dtype NumPy, chi.LogLikelihood as the per-individual reference (decided by C01), documented naming conventions. Bounds: <=2 (3) sub-models, total dimension 2 (3), 2 (1-3) individuals, <=1 (2) covariates.',
+    note='Trusted: z3, canonical linear abstraction (chisym/canon.py, sound first stage), object-dtype NumPy, chi.LogLikelihood as the per-individual reference (decided by C01), documented naming conventions. Bounds: <=2 (3) sub-models, total dimension 2 (3), 2 (1-3) individuals, <=1 (2) covariates. Also: covariate sub-models acting on an off-diagonal selection of a two-dimensional model, multi-dimensional sub-models in front of others.',
     technique='symbolic execution of the real code on z3 reals + names-driven specification interpreter + SMT validity queries over exhaustively enumerated compositions'),
  'C03': dict(
     text='Bounded symbolic verification that evaluateS1 returns the plain score and, entry by entry, the symbolic derivative of the __call__ term with respect to the flat vector, for LogLikelihood, LogPosterior, HierarchicalLogLikelihood and HierarchicalLogPosterior (uninterpreted mechanistic model and prior with declared partials), in both call orders, with fixed parameters and covariates; outside the support both evaluations are non-finite.',
@@ -29,12 +29,12 @@ CLAIMED = {
  'C05': dict(
     text='Bounded symbolic verification of every population model class: value = documented density sum, layout invariance (flat / matrix / per-individual tensor), composed = sum of parts, sensitivities in the separate, flattened and reduced forms = derivative of loglik + <G, psi> with symbolic upstream G, lengths = reported counts; all real parameter values, n_dim <= 2 (3), n_ids <= 2 (3).',
     design='5 C05',
-    note='Trusted: z3, object-dtype NumPy, harness/popspec.py densities, erf axioms (odd, bounded, monotone, derivative). sigma>0 assumed. Known finding: matrix layout misread by 3 methods (pinned by stable tests).',
+    note='Trusted: z3, object-dtype NumPy, harness/popspec.py densities, erf axioms (odd, bounded, monotone, derivative). sigma>0 assumed. Known finding: matrix layout misread by 3 methods (pinned by stable tests). Also: composed models whose sub-models carry 1-2 covariates each (value, sensitivities, individual parameters on their own covariate columns), per-individual tensor layouts whose rows differ, multi-dimensional sub-models in front of others.',
     technique='symbolic execution of the real NumPy code on z3 reals + SMT validity queries; symbolic differentiation of the value term as gradient oracle'),
  'C06': dict(
     text='Bounded symbolic verification of every sampler against the density its own log-likelihood evaluates: with the RNG stub each sample is a term in fresh standard normals; z3 decides affinity / log-affinity, mean, variance and the full log-density identity in a symbolic measurement, truncation support and law for the truncated model, point-mass behaviour of pooled / heterogeneous models, psi = transform(eta) laws for non-centred models, reported moments; error models, all population kinds, composed, covariate and reduced models; n_samples <= 2 (3), n_dim <= 2 (3).',
     design='5 C06',
-    note='Trusted: RNG stub contract (NumPy/SciPy documentation: normal = loc + scale*eps, lognormal = exp(normal), truncnorm standardised bounds), closure of independent Gaussians under affine maps, E exp(a eps) = exp(a^2/2), z3, erf axioms. Replays draw 10^5 real samples. Known finding: ConstantAndMultiplicative sampler variance (pinned by a stable test).',
+    note='Trusted: RNG stub contract (NumPy/SciPy documentation: normal = loc + scale*eps, lognormal = exp(normal), truncnorm standardised bounds), closure of independent Gaussians under affine maps, E exp(a eps) = exp(a^2/2), z3, erf axioms. Replays draw 10^5 real samples. Known finding: ConstantAndMultiplicative sampler variance (pinned by a stable test). Also: several covariate-dependent sub-models in one composition (each samples conditional on its own covariate columns).',
     technique='symbolic execution with a named-stream RNG stub + change-of-variables / moment identities decided by SMT; statistical replay of counter-examples'),
  'C07': dict(
     text='Bounded symbolic verification of CovariatePopulationModel / LinearCovariateModel: for every underlying model, dimension, covariate count and selection within the bound and all real vartheta_0, beta, covariates and individual values, z3 decides that likelihood, individual parameters, samples and sensitivities equal those of the underlying model evaluated per individual at vartheta_i built from the published beta names; zero beta / zero covariates coincide with the underlying model.',
@@ -49,12 +49,12 @@ CLAIMED = {
  'C12': dict(
     text='Bounded symbolic verification of the five population filters and ComposedPopulationFilter: for all real measurements and simulated measurements within the bound z3 decides score = documented log-density sum with the documented empirical estimators, sensitivities = symbolic derivative in input order, invariance under permuting measured individuals, sort_times with consistently reordered simulations (all time permutations) and splitting over a composed filter; the log-sum-exp maximum branches are explored path by path.',
     design='5 C12',
-    note='Trusted: z3, canonical exp/log/sqrt rules of chisym/canon.py (validated numerically on every obligation they decide), object-dtype NumPy reductions. Missing values (NaN-padded measurements: all-missing individual, ragged, sparse, uneven counts per time point, also under every time re-ordering) are carried by a stub of numpy.ma for object payloads (chisym/facade_ma.py) that is cross-checked against the real numpy.ma by the differential float run of every case. Outside: zero-variance simulated samples, arrays larger than the bound.',
+    note='Trusted: z3, canonical exp/log/sqrt rules of chisym/canon.py (validated numerically on every obligation they decide), object-dtype NumPy reductions. Missing values (NaN-padded measurements: all-missing individual, ragged, sparse, uneven counts per time point, also under every time re-ordering) are carried by a stub of numpy.ma for object payloads (chisym/facade_ma.py) that is cross-checked against the real numpy.ma by the differential float run of every case. Outside: zero-variance simulated samples, arrays larger than the bound. Also: composed filters over 3-4 sub-filters (flat = nested).',
     technique='symbolic execution on z3 reals with path exploration of np.max + canonical normal form / SMT validity queries; symbolic differentiation as gradient oracle'),
  'C13': dict(
     text='Bounded symbolic verification of chi.PopulationFilterLogPosterior over the uninterpreted mechanistic model and prior: for every population composition within the bound, fixed/free sigma, additive/log-scale noise and unsorted time vectors, z3 decides that value minus (log-prior + population log-density + filter log-likelihood of Y(psi_s) + sigma*eps at the sorted times - sum eps^2/2), rebuilt from the published names and IDs only, has zero derivative in every entry, and that evaluateS1 returns the symbolic derivative of the value entry by entry.',
     design='5 C13',
-    note='Trusted: z3, canonical stage, the population filters as reference (C12), documented naming conventions. Bounds: 2 simulated individuals (4 for the mixture filter), <=2 observables, <=2 times, compositions of <=2 (3) sub-models. Known finding: covariate model around a pooled dimension.',
+    note='Trusted: z3, canonical stage, the population filters as reference (C12), documented naming conventions. Bounds: 2 simulated individuals (4 for the mixture filter), <=2 observables, <=2 times, compositions of <=2 (3) sub-models. Known finding: covariate model around a pooled dimension. Also: two observables at two unsorted time points; composed filters with three unsorted time points.',
     technique='symbolic execution on z3 reals + names-driven specification interpreter + symbolic differentiation + SMT validity queries'),
  'C09': dict(
     text='Bounded symbolic verification of the binding chi owns between the flat parameter vector and the ODE solver: over a stub of myokit.Simulation that returns the uninterpreted solution functional of exactly what it was handed, simulate(p, t) and the sensitivity array are decided equal, entry by entry, to the functional (and its declared partials) with p_i bound to the variable behind the i-th published name, for generated SBML models with every declaration order of 1..3 states, constants, intermediates, derived constants, output selections, renamings, copies and reduced models (incl. swapping the fixed parameter / releasing all with sensitivities left on), and for the 4 library models whose right-hand sides are also decided equal to the documented equations.',
@@ -64,49 +64,49 @@ CLAIMED = {
  'C10': dict(
     text='Bounded symbolic verification of dosing: set_dosing_regimen with symbolic dose/start/duration/period and every num hands the simulator the documented event (level*duration = dose); the model surgery of set_administration is decided on the myokit expression trees (dose rate on the dosed amount, first-order depot) for library and generated models; cumulative input between infusions = sum of scheduled doses under myokit event semantics; PredictiveModel.get_dosing_regimen on symbolic start, period, duration, level and final_time lists exactly the events applied up to final_time (floor forked, <= 4 doses); regimens derived from a dataset hold exactly each individual\'s dose rows (start = time, rate*duration = amount, 0.01 bolus when the duration is missing) for every pair (triple) of row kinds, row orders and ID types.',
     design='5 C10',
-    note='Trusted: real myokit model/expression classes, protocol stub = documented myokit.Protocol event semantics, z3. Dataset-derived regimens: ProblemModellingController.set_data / get_dosing_regimens on pandas frames with symbolic dose amounts, times and durations (pd.to_numeric facade). Outside: the integrator.',
+    note='Trusted: real myokit model/expression classes, protocol stub = documented myokit.Protocol event semantics, z3. Dataset-derived regimens: ProblemModellingController.set_data / get_dosing_regimens on pandas frames with symbolic dose amounts, times and durations (pd.to_numeric facade). Outside: the integrator. Also: re-administration into another state of the same compartment.',
     technique='symbolic execution over the myokit stub with symbolic protocol fields + SMT decisions; expression-tree translation of the modified right-hand sides'),
  'C11': dict(
     text='Bounded exhaustive histories with symbolic data: every sequence of <= 2 (3) configuration calls (administration direct/indirect, two regimens with symbolic doses, output selections, renamings, sensitivities on/off, copy) on a PKPDModel over the myokit stub; the observables (names, counts, outputs, reported regimen, and simulate(p,t) as a term containing the protocol on the live simulator and the sensitivity request) are decided equal to a fresh model with only the net configuration; reported regimen = protocol on the live simulator; copies equal the original at copy time and stay unaffected; the same for histories of fix / re-fix / release / swap-in-one-call / release-all / sensitivities / copy on a ReducedMechanisticModel over the dosed model.',
     design='5 C11',
-    note='Trusted: myokit stub contract; the reference applies the same chi calls on a fresh model in canonical order (administration, regimen, outputs, renaming, sensitivities); documented resets (set_outputs / set_administration reset sensitivities; an output rename lives with the selected output). Known finding: renames lost when an administration rebuilds the name tables.',
+    note='Trusted: myokit stub contract; the reference applies the same chi calls on a fresh model in canonical order (administration, regimen, outputs, renaming, sensitivities); documented resets (set_outputs / set_administration reset sensitivities; an output rename lives with the selected output). Known finding: renames lost when an administration rebuilds the name tables. Also: all 3-step output selection / renaming histories.',
     technique='exhaustive bounded call histories executed symbolically over an uninterpreted-solver stub; term/SMT equality of observables'),
  'C14': dict(
     text='Bounded symbolic verification of chi.ProblemModellingController: set_data (type cleaning, observable / covariate maps, row selection, regimen and covariate extraction), set_population_model, fix_parameters, set_log_prior and get_log_posterior are executed on pandas frames with concrete structure (IDs and their type, observables, missing cells, row order, unrelated rows and columns) and symbolic payload (values, dose amounts, durations, covariates); value, IDs, gradient of the returned posterior at a symbolic vector are decided equal to the posterior assembled by hand from the ground truth (one LogLikelihood per individual over a model copy with that individual\'s own protocol, measurements and times; population model with that individual\'s covariates in ID order), for 7 renderings of every dataset.',
     design='5 C14',
-    note='Trusted: real pandas on object columns; pd.to_numeric facade (passes symbolic columns through after checking the remaining cells with the real to_numeric); myokit stub (the solution symbol is keyed by the protocol events, so a regimen on the wrong individual is a different term); chi likelihood / posterior classes as the hand-assembly vocabulary (decided by C01-C03). Bounds: 1-3 individuals, 1-2 outputs, 0-3 measurements per output, <= 2 dose rows per individual, 7 population models, <= 2 covariates; measurement and dose times are concrete.',
+    note='Trusted: real pandas on object columns; pd.to_numeric facade (passes symbolic columns through after checking the remaining cells with the real to_numeric); myokit stub (the solution symbol is keyed by the protocol events, so a regimen on the wrong individual is a different term); chi likelihood / posterior classes as the hand-assembly vocabulary (decided by C01-C03). Bounds: 1-3 individuals, 1-2 outputs, 0-3 measurements per output, <= 2 dose rows per individual, 7 population models, <= 2 covariates; measurement and dose times are concrete. Also: replicate measurements, the output-observable map in reversed key order, covariates as a separate block of rows, several population models in a row on one controller.',
     technique='symbolic execution of the real code on pandas object columns + term/SMT equality against a hand-assembled posterior, over enumerated dataset renderings'),
  'C19': dict(
     text='Bounded exhaustive evaluation sequences with symbolic points (sequential clause): all sequences of 2 (3) evaluations (value, pointwise, value+sensitivities at two points) on one object or interleaved over two sibling objects built from the same user models, for 9 kinds of evaluable objects incl. dosed PKPD likelihoods over the myokit stub and objects with fixed parameters; each result term is decided equal to the same single evaluation on a fresh object and consistent across operations (S1 score = value, sum pointwise = value), inputs are compared cell by cell with a snapshot, mutations of the user models after construction leave the derived objects unchanged, and evaluations before a reconfiguration (swap of the fixed mechanistic parameter) leave nothing behind that shows afterwards.',
     design='5 C19',
-    note='Trusted: myokit stub (protocol and sensitivity request are part of the solution term, so a rebuilt simulator that lost them is visible), term identity / z3. Outside: forked-worker evaluation (pints.ParallelEvaluator) and data frames.',
+    note='Trusted: myokit stub (protocol and sensitivity request are part of the solution term, so a rebuilt simulator that lost them is visible), term identity / z3. Outside: forked-worker evaluation (pints.ParallelEvaluator) and data frames. Also: seeded sampling from a PredictiveModel with the arrays of the caller as watched inputs; evaluate - reconfigure - evaluate sequences (also on a dosed likelihood); gradients returned earlier must still hold what they held when returned.',
     technique='exhaustive bounded evaluation sequences executed symbolically; term/SMT equality against fresh-object evaluations'),
  'C15': dict(
     text='Bounded symbolic verification of the predictive models over the RNG stub and the uninterpreted mechanistic model: every table value is a term; row by row it is decided that the value labelled (ID, time, observable) is the error model around the prediction for that output and time at that sample\'s parameters, that times ascend, that the parameters (read off the arguments of the solution symbol) are the given vector / a population draw with the documented law after the model\'s transform (n_samples equal to and different from the configured n_ids, covariates) / one joint (chain, draw) row of the selected individual / one prior draw, and that averaged models label samples 1..n model by model with the normalised weights.',
     design='5 C15',
-    note='Trusted: RNG stub contract, pandas/xarray object columns, z3. Known finding: pooled dimension with n_samples < configured n_ids. Bounds: <=2 outputs, <=3 times, <=2 samples, <=2 chains x 2 (3) draws x 2 individuals, 2 averaged models.',
+    note='Trusted: RNG stub contract, pandas/xarray object columns, z3. Known finding: pooled dimension with n_samples < configured n_ids. Bounds: <=2 outputs, <=3 times, <=2 samples, <=2 chains x 2 (3) draws x 2 individuals, 2 averaged models. Also: PAM with 3-4 candidate models; the samples per model must match the indices the draws selected on the path.',
     technique='symbolic execution with RNG stub; term inspection of the solution symbol + SMT decisions of the per-row law'),
  'C16': dict(
     text='Symbolic verification of seeding over a named-stream RNG stub: every sampling entry point (4 error models, 12 population models incl. composed/covariate/reduced, PredictiveModel, PopulationPredictiveModel, Posterior/Prior/PAM predictive models, the three sample_initial_parameters) is run twice with the same integer seed under different global generator states and an interleaved foreign draw and the result terms must coincide; different seeds must give different stream variables; distinct noise carriers must depend on disjoint stream variables; a Generator passed as seed must be advanced.',
     design='5 C16',
-    note='Trusted: RNG stub = NumPy seeding semantics (default_rng(int) restarts a stream, default_rng(Generator) continues it, np.random.seed resets the global stream); pints priors modelled as drawing from the global generator. Syntactic disjointness of stream variables implies independence.',
+    note='Trusted: RNG stub = NumPy seeding semantics (default_rng(int) restarts a stream, default_rng(Generator) continues it, np.random.seed resets the global stream); pints priors modelled as drawing from the global generator. Syntactic disjointness of stream variables implies independence. Also: the rows of sample_initial_parameters and PAM samples from different candidate models carry independent noise.',
     technique='symbolic execution with a named-stream RNG stub; term identity / SMT equality of two runs; forks over random indices'),
  'C18': dict(
     text='Bounded symbolic verification of inference I/O: sample_initial_parameters of hierarchical and filter posteriors over the C02/C13 compositions with a prior stub and the RNG stub (shape, population-level entries = the prior draw of the row, individual-level entries have the population law at the row\'s own population values, finite population log-density at the initial point, construction never raises); SamplingController._format_chains on a symbolic chain array (every name once, population-level = c[:,:,k], individual-level = c[:,:,k(name, individual)]); read-back through compute_pointwise_loglikelihood (individual posteriors) and PosteriorPredictiveModel (joint raw row of the selected individual).',
     design='5 C18',
-    note='Trusted: RNG stub, prior stub, xarray object arrays, z3. OptimisationController.run over a stub optimiser returning symbolic estimates / scores: every row pairs estimate, name, ID, score, run. Outside: running the optimisers / samplers themselves, arviz conversion; hierarchical pointwise evaluation is NotImplemented in chi.',
+    note='Trusted: RNG stub, prior stub, xarray object arrays, z3. OptimisationController.run over a stub optimiser returning symbolic estimates / scores: every row pairs estimate, name, ID, score, run. Outside: running the optimisers / samplers themselves, arviz conversion; hierarchical pointwise evaluation is NotImplemented in chi. Also: chains of filter posteriors (population-level entries first), unsorted / many individual labels, read-back through chained / swapped parameter maps, reproducibility of initial points from the seed (incl. 0) under different global generator states.',
     technique='symbolic execution with RNG/prior stubs + term inspection + SMT decisions of per-entry laws'),
  'C17': dict(
     text='CrossHair (symbolic execution of Python with z3) on contract functions generated per run: the bodies build the real chi objects from symbolic small integers (sub-model kinds, dimensions, numbers of individuals before/after set_n_ids, fixed-parameter masks, covariate selections, numbers of outputs / times / simulated individuals) and require n_parameters = number of names = length of IDs = accepted vector length = gradient length, IDs marking exactly the individual-level entries, distinct names with IDs, sub-model names in documented order; "Confirmed over all paths" for every condition is the exhaustive verdict for the stated ranges; each body has a reachability twin.',
     design='5 C17',
-    note='Trusted: CrossHair 0.0.110 path exhaustion ("Confirmed over all paths") + z3; integers are realised by branching so that one path = one configuration and the body then runs untraced. Ranges: kinds 7, dims 1-2, n_ids 1-2 (3), 2 (3) sub-models, masks < 8 (32), selections < 16.',
+    note='Trusted: CrossHair 0.0.110 path exhaustion ("Confirmed over all paths") + z3; integers are realised by branching so that one path = one configuration and the body then runs untraced. Ranges: kinds 7, dims 1-2, n_ids 1-2 (3), 2 (3) sub-models, masks < 8 (32), selections < 16. Also: rename / reset-to-default names, gradient lengths outside the support, error models alone, one error-model instance shared by several outputs, multi-dimensional special sub-models in filter posteriors.',
     technique='CrossHair symbolic execution over small symbolic integers with generated pre/post contracts'),
 }
 
 CLAIMED['C20'] = dict(
     text='Bounded symbolic verification of the four time-series figure classes on pandas frames with concrete structure and symbolic times, values, doses, durations and predictive samples: add_data / add_simulation traces are compared cell by cell with the ground truth (one marker trace per individual of the chosen observable with exactly its points in row order, dose panels with exactly its dose rows, the caller\'s frame unchanged); for add_prediction with bulk probabilities pandas\' rank / max / min compare symbolic samples, so each explorer path is one (weak) ordering of the samples of every time point, and on each path it is decided that both limits are sample values of that time point, that at least the requested fraction of its samples lies between them, and that bands are nested.',
     design='5 C20',
-    note='Trusted: real pandas on object columns (rank, masks, max/min call the Python comparison of the cells, which is the explorer\'s decision point), plotly keeping object arrays as given, z3. Bounds: 3 individuals x 6 row layouts, 2-4 samples per time point in every weak ordering, 5 (6-7) distinct samples in every strict ordering, 8-20 (30) samples in 4 fixed strict orderings. Outside: residual and other figure classes, rendering beyond the trace arrays.',
+    note='Trusted: real pandas on object columns (rank, masks, max/min call the Python comparison of the cells, which is the explorer\'s decision point), plotly keeping object arrays as given, z3. Bounds: 3 individuals x 6 row layouts, 2-4 samples per time point in every weak ordering, 5 (6-7) distinct samples in every strict ordering, 8-20 (30) samples in 4 fixed strict orderings. Outside: residual and other figure classes, rendering beyond the trace arrays. Also: dose rows carrying measurements, unsorted time points, repeated index labels, samples without value, probabilities differing in the third decimal.',
     technique='symbolic execution of the real code on pandas/plotly object arrays; path per sample ordering; term identity + SMT decisions of the enclosure and nesting conditions')
 
 NOT_APPLICABLE = {
